@@ -33,6 +33,13 @@ pub fn main() {
         "C16" => c16(),
         "C11" => c11(),
         "C15" => c15(),
+        "C09" => c09(),
+        "MIRI" => {
+            // supplementary free-running pass under a race detector (cargo +nightly miri run): decode blocks through the REAL
+            // rayon and compare with the model. Sampling by nature; never decides a property on its own.
+            miri_body();
+            return;
+        }
         p => {
             eprintln!("inproc: no E2 check for {}", p);
             std::process::exit(2);
@@ -551,4 +558,100 @@ fn replay(path: &str) -> i32 {
             2
         }
     }
+}
+
+
+/// Body shared with the C13 schedule worlds: parse a block from memory (read_block -> Block::new -> EvaluatedTx::new,
+/// both parallel regions on the real rayon pool) and check every txid, address and type against the model.
+pub fn miri_body() {
+    use crate::blockchain::parser::reader::BlockchainRead;
+    use crate::blockchain::parser::types::CoinType;
+    use refmodel::ser::{Block as MBlock, Tx, TxIn, TxOut};
+    use std::str::FromStr;
+    for cname in ["bitcoin", "litecoin"] {
+        let c = coin(cname);
+        let ct = CoinType::from_str(cname).unwrap();
+        for shape in [vec![4usize], vec![2, 2], vec![1, 1, 1], vec![3, 2, 3]] {
+            let txs: Vec<Tx> = shape
+                .iter()
+                .enumerate()
+                .map(|(ti, n)| Tx {
+                    version: 1,
+                    segwit: false,
+                    inputs: vec![if ti == 0 { TxIn::coinbase(vec![1, 2, 3]) } else { TxIn::spend([ti as u8; 32], 0) }],
+                    outputs: (0..*n).map(|k| TxOut { value: 10 + k as u64, script: match (ti + k) % 3 { 0 => rs::p2pkh(&rs::h20((ti * 8 + k) as u8)), 1 => rs::op_return(b"miri"), _ => rs::p2sh(&rs::h20(k as u8)) } }).collect(),
+                    locktime: 0,
+                })
+                .collect();
+            let b = MBlock::build(1, [7u8; 32], 1_600_000_000, 0x1d00ffff, 5, txs);
+            let raw = b.ser();
+            let mut cur = Cursor::new(raw.clone());
+            let blk = cur.read_block(raw.len() as u32, &ct).expect("parse");
+            assert_eq!(blk.txs.len(), b.txs.len());
+            for (got, want) in blk.txs.iter().zip(b.txs.iter()) {
+                assert_eq!(got.hash.to_string(), refmodel::ser::hash_hex(&want.txid()), "txid");
+                for (go, wo) in got.value.outputs.iter().zip(want.outputs.iter()) {
+                    let e = rs::expect(c, &wo.script);
+                    assert_eq!(go.script.address, e.address, "address");
+                    assert!(subject_type(&go.script.pattern) & e.types != 0, "type");
+                }
+            }
+        }
+    }
+    println!("MIRI-BODY-OK");
+}
+
+
+// ---- C09: utils::merkle_root against the reference for every leaf count up to the bound ----------------------------
+
+fn c09() -> Report {
+    use bitcoin::hashes::{sha256d, Hash};
+    let mut rep = Report::new("C09", "e2");
+    let max_n: usize = if is_thorough() { 5000 } else { 1100 };
+    rep.rule = format!("common::utils::merkle_root on EVERY leaf count 1..={} (all tree shapes with odd levels at every depth up to {}), three leaf patterns each (distinct, all equal, last two equal), compared with the reference pairwise-hash implementation; non-trivial = distinct (count, pattern) with count >= 2", max_n, (max_n as f64).log2().ceil() as u32);
+    rep.bound = json!({"max_leaves": max_n, "patterns": 3});
+    for n in 1..=max_n {
+        for pat in 0..3u8 {
+            let leaves: Vec<[u8; 32]> = (0..n)
+                .map(|i| {
+                    let k = match pat {
+                        0 => i,
+                        1 => 0,
+                        _ => if i + 1 == n && n >= 2 { n - 2 } else { i },
+                    };
+                    refmodel::hash::sha256(&(k as u64).to_le_bytes())
+                })
+                .collect();
+            rep.states += 1;
+            rep.transitions += 1;
+            if n >= 2 {
+                rep.nontrivial.insert(h8(format!("{}-{}", n, pat).as_bytes()));
+            }
+            let want = refmodel::ser::merkle_root(leaves.clone());
+            let input: Vec<sha256d::Hash> = leaves.iter().map(|l| sha256d::Hash::from_byte_array(*l)).collect();
+            match catch_unwind(|| crate::common::utils::merkle_root(input)) {
+                Err(_) => rep.disagree("merkle-root-panics", format!("{} leaves, pattern {}", n, pat), json!({"kind": "merkle", "leaves": n, "pattern": pat})),
+                Ok(got) => {
+                    if got.to_byte_array() != want {
+                        let odd_levels: Vec<usize> = {
+                            let mut v = vec![];
+                            let mut m = n;
+                            let mut d = 0;
+                            while m > 1 {
+                                if m % 2 == 1 {
+                                    v.push(d);
+                                }
+                                m = (m + 1) / 2;
+                                d += 1;
+                            }
+                            v
+                        };
+                        rep.disagree("merkle-root-differs-from-reference", format!("{} leaves (odd levels at depths {:?}), pattern {}: got {} want {}", n, odd_levels, pat, hex(&got.to_byte_array()), hex(&want)), json!({"kind": "merkle", "leaves": n, "pattern": pat}));
+                    }
+                }
+            }
+        }
+    }
+    rep.sample(json!({"leaves": 5, "tree": "h(h(h01,h23),h(h44,h44))", "reference": hex(&refmodel::ser::merkle_root((0..5u64).map(|i| refmodel::hash::sha256(&i.to_le_bytes())).collect()))}));
+    rep
 }
